@@ -125,10 +125,17 @@ func runC17(args []string) error {
 			r.Shuffle(len(order), func(i, j int) { order[i], order[j] = order[j], order[i] })
 		}
 		wd := map[string]string{"setdir": setdir, "parent": filepath.Join(root, "parent"), "unrelated": unrelated}[cfg.Cwd]
+		mixI := 0
 		spell := func(rel string) string {
 			abs := filepath.Join(setdir, filepath.FromSlash(rel))
 			r, _ := filepath.Rel(wd, abs)
-			switch cfg.Spell {
+			kind := cfg.Spell
+			if kind == "mixed" {
+				// every path of the command line spelled differently
+				kind = []string{"rel", "abs", "dotslash", "absdblsep", "dblsep", "absdot"}[mixI%6]
+				mixI++
+			}
+			switch kind {
 			case "abs":
 				return abs
 			case "absdot":
